@@ -507,3 +507,70 @@ def in_language(expr, compiled=False):
             return False
         return False
     return True
+
+
+# ---- C08 reference: comparisons that involve a field the record lacks are False --------------------------------------
+
+class _Missing:
+    def __repr__(self):
+        return "<missing>"
+
+    def __bool__(self):
+        return False
+
+
+MISSING = _Missing()
+
+
+class PlainMissing(Plain):
+    def __getattr__(self, k):
+        try:
+            return Plain.__getattr__(self, k)
+        except AttributeError:
+            if k.startswith("__"):
+                raise
+            return MISSING
+
+
+import operator as _op
+
+_OPS = {"Eq": _op.eq, "NotEq": _op.ne, "Lt": _op.lt, "LtE": _op.le, "Gt": _op.gt, "GtE": _op.ge, "Is": _op.is_, "IsNot": _op.is_not,
+        "In": lambda a, b: a in b, "NotIn": lambda a, b: a not in b}
+
+
+def _c8cmp(ops, *operands):
+    for i, o in enumerate(ops):
+        a, b = operands[i], operands[i + 1]
+        if o not in ("Is", "IsNot") and (a is MISSING or b is MISSING):
+            return False
+        if not _OPS[o](a, b):
+            return False
+    return True
+
+
+class _C8Rewrite(ast.NodeTransformer):
+    def visit_Compare(self, node):
+        self.generic_visit(node)
+        return ast.Call(func=ast.Name(id="_c8cmp", ctx=ast.Load()),
+                        args=[ast.Tuple(elts=[ast.Constant(type(o).__name__) for o in node.ops], ctx=ast.Load()), node.left] + node.comparators,
+                        keywords=[])
+
+
+_c8cache = {}
+
+
+def evaluate_c08(expr, rec):
+    """Truth value under the C08 reading (missing-field comparisons are False); ('undefined', reason) if evaluation raises."""
+    code = _c8cache.get(expr)
+    if code is None:
+        tree = ast.fix_missing_locations(_C8Rewrite().visit(ast.parse(expr, mode="eval")))
+        code = _c8cache[expr] = compile(tree, "<c8>", "eval")
+    ns = namespace(rec)
+    ns["r"] = PlainMissing(rec)
+    ns["_c8cmp"] = _c8cmp
+    try:
+        return ("value", bool(eval(code, ns)))
+    except RecursionError:
+        raise
+    except Exception as e:  # noqa: BLE001
+        return ("undefined", type(e).__name__)
